@@ -38,13 +38,14 @@ type c03File struct {
 	Rules []c03Rule `json:"rules"`
 	FileC []string  `json:"file_comments,omitempty"`
 	Broken bool     `json:"has_invalid_rule,omitempty"`
+	GroupLabel string `json:"group_label,omitempty"` // `labels: {tier: X}` on the group: a label of every rule in it
 }
 
 // the file-level comments as the set they are: the order of `# pint file/disable` lines is not content
 func (f c03File) fileCKey() string {
 	c := append([]string{}, f.FileC...)
 	sort.Strings(c)
-	return fmt.Sprint(c)
+	return fmt.Sprint(c) + "|" + f.GroupLabel
 }
 
 type c03Tree []c03File
@@ -72,7 +73,11 @@ func (f c03File) render() string {
 	if strings.HasPrefix(f.Path, "rules/relaxed/") {
 		ind = ""
 	} else {
-		sb.WriteString("groups:\n- name: g\n  rules:\n")
+		sb.WriteString("groups:\n- name: g\n")
+		if f.GroupLabel != "" {
+			sb.WriteString("  labels:\n    tier: " + f.GroupLabel + "\n")
+		}
+		sb.WriteString("  rules:\n")
 	}
 	for _, r := range f.Rules {
 		for i := 0; i < r.Blank; i++ {
@@ -164,11 +169,18 @@ func c03Op(r *hx.Run, t *c03Tree, nextID *int, base c03Tree) string {
 		}
 		return rr.Intn(len(tree))
 	}
-	switch rr.Intn(14) {
+	switch rr.Intn(15) {
+	case 14: // labels of the group: every rule of the file gets another label set
+		if i := pickFile(); i >= 0 && !strings.HasPrefix(tree[i].Path, "rules/relaxed/") {
+			tree[i].GroupLabel = hx.Pick(rr, []string{"", "one", "two"})
+			return "group labels of " + tree[i].Path
+		}
 	case 0: // add file
 		f := c03File{ID: *nextID, Path: fmt.Sprintf("rules/f%d.yml", *nextID)}
 		if rr.Intn(4) == 0 {
 			f.Path = fmt.Sprintf("rules/relaxed/f%d.yml", *nextID)
+		} else if rr.Intn(4) == 0 {
+			f.Path = fmt.Sprintf("rules/règles zażółć %d.yml", *nextID) // git prints such names quoted
 		}
 		*nextID++
 		u := map[string]bool{}
@@ -187,8 +199,10 @@ func c03Op(r *hx.Run, t *c03Tree, nextID *int, base c03Tree) string {
 		if i := pickFile(); i >= 0 {
 			old := tree[i].Path
 			tree[i].Path = fmt.Sprintf("rules/moved%d_%d.yml", tree[i].ID, rr.Intn(1000))
-			if rr.Intn(5) == 0 && !tree[i].Broken {
+			if rr.Intn(5) == 0 && !tree[i].Broken && tree[i].GroupLabel == "" {
 				tree[i].Path = fmt.Sprintf("rules/relaxed/moved%d_%d.yml", tree[i].ID, rr.Intn(1000))
+			} else if rr.Intn(5) == 0 {
+				tree[i].Path = fmt.Sprintf("rules/przeniesione żółć %d_%d.yml", tree[i].ID, rr.Intn(1000))
 			}
 			return "rename " + old + " -> " + tree[i].Path
 		}
@@ -583,7 +597,7 @@ func c03Eval(r *hx.Run, cs c03Case) {
 	}
 	var recs []c03Rec
 	cur := 0
-	for _, l := range strings.Split(hx.Git(dir, "log", "--reverse", "--no-merges", "--first-parent", "--format=%H", "--name-status", "main..HEAD").Stdout, "\n") {
+	for _, l := range strings.Split(hx.Git(dir, "-c", "core.quotePath=false", "log", "--reverse", "--no-merges", "--first-parent", "--format=%H", "--name-status", "main..HEAD").Stdout, "\n") {
 		parts := strings.Split(l, "\t")
 		if len(parts) == 1 {
 			if parts[0] != "" {
@@ -802,6 +816,12 @@ func runC03(r *hx.Run, replay string) {
 		var base c03Tree
 		for f, n := 0, 1+rr.Intn(3); f < n; f++ {
 			file := c03File{ID: nextID, Path: fmt.Sprintf("rules/f%d.yml", nextID), Broken: rr.Intn(5) == 0}
+			if rr.Intn(6) == 0 {
+				file.Path = fmt.Sprintf("rules/ünï %d.yml", nextID)
+			}
+			if rr.Intn(5) == 0 {
+				file.GroupLabel = "one"
+			}
 			switch rr.Intn(6) {
 			case 0:
 				file.FileC = []string{"# pint file/disable promql/fragile"}
